@@ -243,13 +243,13 @@ Lemma firstn_zlen (n : Z) (l : list Z) : 0 <= n <= zlen l -> zlen (firstn (Z.to_
 Proof. intros H. unfold zlen in *. rewrite firstn_length. lia. Qed.
 
 Lemma close_reason_len_some max_len extra len sl :
-  Varint.size len = Some sl -> 0 <= len -> 0 <= extra -> 0 <= sl -> 3 + extra + sl <= max_len ->
-  close_reason_len max_len extra len = Some (Z.min len (max_len - 3 - extra - sl)).
+  Varint.size len = Some sl -> 0 <= len -> 0 <= extra -> 0 <= sl -> 1 + extra + sl <= max_len ->
+  close_reason_len max_len extra len = Some (Z.min len (max_len - 1 - extra - sl)).
 Proof.
   intros Hs Hl He Hsl Hm. unfold close_reason_len, u64_sub. rewrite Hs.
-  destruct (max_len <? 3) eqn:E1; [lia|].
-  destruct (max_len - 3 <? extra) eqn:E2; [lia|].
-  destruct (max_len - 3 - extra <? sl) eqn:E3; [lia|]. reflexivity.
+  destruct (max_len <? 1) eqn:E1; [lia|].
+  destruct (max_len - 1 <? extra) eqn:E2; [lia|].
+  destruct (max_len - 1 - extra <? sl) eqn:E3; [lia|]. reflexivity.
 Qed.
 
 Lemma size_bounds x s : Varint.size x = Some s -> 1 <= s <= 8.
@@ -261,40 +261,79 @@ Proof.
   destruct (x <? 2 ^ 62); [intros [= <-]; lia|discriminate].
 Qed.
 
+Lemma size_mono a b sa sb :
+  0 <= a <= b -> Varint.size a = Some sa -> Varint.size b = Some sb -> sa <= sb.
+Proof.
+  unfold Varint.size. intros Hab.
+  destruct (a <? 0) eqn:A0; [discriminate|]. destruct (b <? 0) eqn:B0; [discriminate|].
+  destruct (a <? 2 ^ 6) eqn:A1; destruct (b <? 2 ^ 6) eqn:B1;
+    destruct (a <? 2 ^ 14) eqn:A2; destruct (b <? 2 ^ 14) eqn:B2;
+    destruct (a <? 2 ^ 30) eqn:A3; destruct (b <? 2 ^ 30) eqn:B3;
+    destruct (a <? 2 ^ 62) eqn:A4; destruct (b <? 2 ^ 62) eqn:B4;
+    intros [= <-] [= <-]; lia.
+Qed.
+
+(** Round trip with the reason cut to a prefix, and the frame fits in [max_len]. *)
 Lemma close_roundtrip withlen max_len f :
   wf_frame f = true -> is_close f = true -> close_fits max_len (DFrame f) = true ->
   exists b n, encode_frame withlen max_len f = Some b /\
     0 <= n <= zlen (close_reason f) /\
-    (forall r, try_next (b ++ r) = DOk (truncate_close n f) r).
+    (forall r, try_next (b ++ r) = DOk (truncate_close n f) r) /\
+    zlen b <= max_len.
 Proof.
   intros Hwf Hc Hfit.
   destruct f; cbn [is_close] in Hc; try discriminate; cbn [wf_frame close_fits] in Hwf, Hfit;
     wf_hyps; cbn [encode_frame close_reason truncate_close].
-  - destruct (Varint.size fty) as [sf|] eqn:Esf; [|discriminate].
+  - destruct (Varint.size code) as [sc|] eqn:Esc; [|discriminate].
+    destruct (Varint.size fty) as [sf|] eqn:Esf; [|discriminate].
     destruct (Varint.size (zlen reason)) as [sl|] eqn:Esl; [|discriminate].
-    pose proof (size_bounds _ _ Esf). pose proof (size_bounds _ _ Esl).
-    rewrite (close_reason_len_some max_len sf (zlen reason) sl) by (try assumption; lia).
-    set (n := Z.min (zlen reason) (max_len - 3 - sf - sl)).
+    pose proof (size_bounds _ _ Esc). pose proof (size_bounds _ _ Esf).
+    pose proof (size_bounds _ _ Esl).
+    rewrite (close_reason_len_some max_len (sc + sf) (zlen reason) sl);
+      [|first [assumption|lia]..].
+    set (n := Z.min (zlen reason) (max_len - 1 - (sc + sf) - sl)).
     assert (Hn : 0 <= n <= zlen reason) by lia.
     exists (venc 28 ++ venc code ++ venc fty ++ venc n ++ firstn (Z.to_nat n) reason ++ []), n.
-    split; [|split; [exact Hn|]].
+    split; [|split; [exact Hn|split]].
     + rewrite !wv_venc by lia. reflexivity.
     + intros r. norm_app. rewrite try_next_venc by lia.
       change (frame_body 28) with body_close_conn. unfold body_close_conn. rt_vars.
       rewrite <- (firstn_zlen n reason Hn) at 1.
       rewrite take_len_app by (rewrite firstn_zlen; lia). reflexivity.
-  - destruct (Varint.size (zlen reason)) as [sl|] eqn:Esl; [|discriminate].
-    pose proof (size_bounds _ _ Esl).
-    rewrite (close_reason_len_some max_len 0 (zlen reason) sl) by (try assumption; lia).
-    set (n := Z.min (zlen reason) (max_len - 3 - 0 - sl)).
+    + pose proof (venc_size code ltac:(lia)) as Hsc. rewrite Esc in Hsc. inversion Hsc as [Hsc'].
+      pose proof (venc_size fty ltac:(lia)) as Hsf. rewrite Esf in Hsf. inversion Hsf as [Hsf'].
+      pose proof (venc_size n ltac:(lia)) as Hsn.
+      pose proof (size_mono n (zlen reason) _ _ ltac:(lia) Hsn Esl).
+      rewrite (venc_small 28) by lia.
+      unfold zlen in *. rewrite !app_length, firstn_length. cbn [length]. lia.
+  - destruct (Varint.size code) as [sc|] eqn:Esc; [|discriminate].
+    destruct (Varint.size (zlen reason)) as [sl|] eqn:Esl; [|discriminate].
+    pose proof (size_bounds _ _ Esc). pose proof (size_bounds _ _ Esl).
+    rewrite (close_reason_len_some max_len sc (zlen reason) sl); [|first [assumption|lia]..].
+    set (n := Z.min (zlen reason) (max_len - 1 - sc - sl)).
     assert (Hn : 0 <= n <= zlen reason) by lia.
     exists (venc 29 ++ venc code ++ venc n ++ firstn (Z.to_nat n) reason ++ []), n.
-    split; [|split; [exact Hn|]].
+    split; [|split; [exact Hn|split]].
     + rewrite !wv_venc by lia. reflexivity.
     + intros r. norm_app. rewrite try_next_venc by lia.
       change (frame_body 29) with body_close_app. unfold body_close_app. rt_vars.
       rewrite <- (firstn_zlen n reason Hn) at 1.
       rewrite take_len_app by (rewrite firstn_zlen; lia). reflexivity.
+    + pose proof (venc_size code ltac:(lia)) as Hsc. rewrite Esc in Hsc. inversion Hsc as [Hsc'].
+      pose proof (venc_size n ltac:(lia)) as Hsn.
+      pose proof (size_mono n (zlen reason) _ _ ltac:(lia) Hsn Esl).
+      rewrite (venc_small 29) by lia.
+      unfold zlen in *. rewrite !app_length, firstn_length. cbn [length]. lia.
+Qed.
+
+(** The reason is kept whole when [max_len] has room for it. *)
+Lemma close_reason_intact max_len extra len sl :
+  Varint.size len = Some sl -> 0 <= len -> 0 <= extra -> 0 <= sl ->
+  1 + extra + sl + len <= max_len ->
+  close_reason_len max_len extra len = Some len.
+Proof.
+  intros Hs Hl He Hsl Hm. rewrite (close_reason_len_some max_len extra len sl) by (assumption || lia).
+  f_equal. lia.
 Qed.
 
 (** * ACK: [Ack::encode] over a range set, [scan_ack_blocks], [AckIter] *)
